@@ -40,9 +40,14 @@ ASSUMPTIONS = [
 
 # engine budgets (seconds of wall clock, process counts). The engines of one check run concurrently on the 16 cores.
 BUDGET = {
-  'quick':    dict(native_s=40, native_procs=7, proc_ms=8000, miri_s=45, miri_procs=6, asan_s=30, asan_procs=2),
+  # quick: a fixed amount of work (so that the evidence of two runs on machines of different speed agrees): 28 native processes of
+  # 2000 program runs each, 7 at a time; the seconds are only an upper limit (this VM's thread wake-up latency varies by 20x over time)
+  'quick':    dict(native_s=150, native_procs=7, proc_ms=45000, native_total=28, native_runs=2000, miri_s=45, miri_procs=6,
+                   asan_s=100, asan_procs=2, asan_total=4, asan_runs=1200),
   'thorough': dict(native_s=480, native_procs=8, proc_ms=20000, miri_s=480, miri_procs=5, asan_s=200, asan_procs=2, tsan_s=200, tsan_procs=2, memcheck_s=200, memcheck_procs=2),
 }
+# program runs per native process in the quick tier where a run is slow (hold phases decided by the quiescence oracle, thread deaths)
+QUICK_RUNS = {'C10': 700, 'C15': 900}
 FAMILIES = ['mix', 'mix', 'uniform', 'none', 'mix', 'onebig', 'uniform', 'mix']
 # thorough: every process whose family is 'targeted' delays at one (site, position) pair per program run, drawn from the pairs it has seen:
 # over the budget this sweeps all pairs many times (coverage.noise.site_positions_delayed reports how many were actually perturbed)
@@ -90,7 +95,7 @@ def known_match(known, prop, sig):
     return None
 
 
-def run_native(dh, prop, tier, seed, out_dir, budget_s, procs, proc_ms, families=FAMILIES, extra=None, env=None, tool=None, prefix='n', wrapper=None):
+def run_native(dh, prop, tier, seed, out_dir, budget_s, procs, proc_ms, families=FAMILIES, extra=None, env=None, tool=None, prefix='n', wrapper=None, total=None, runs=None):
     """Keeps `procs` harness processes running (fresh seed each) until the wall budget is used. A process ends at its own budget
     or at the first stuck run (its threads are wedged); the next one starts with another seed. With `tool` set (asan, tsan,
     memcheck) stderr is kept and scanned for that tool's reports."""
@@ -102,13 +107,14 @@ def run_native(dh, prop, tier, seed, out_dir, budget_s, procs, proc_ms, families
     tool_violations = []
     while True:
         now = time.time()
-        while len(running) < procs and now < t_end - 1.0:
+        while len(running) < procs and now < t_end - 1.0 and (total is None or k < total):
             ms = int(min(proc_ms, max(1000, (t_end - now) * 1000)))
             out = os.path.join(out_dir, '%s%04d.json' % (prefix, k))
             if os.path.exists(out): os.remove(out)
             fam = families[k % len(families)]
             pseed = seed * 1000003 + k + (0 if not tool else 500009 * (1 + ['asan', 'asan-nohooks', 'tsan', 'memcheck'].index(tool)))
             cmd = (wrapper or []) + [dh, '--profile', prop, '--seed', str(pseed), '--budget-ms', str(ms), '--noise', fam, '--out', out, '--watchdog-s', '60'] + sanit.known_args()
+            if runs: cmd += ['--runs', str(runs)]
             if extra: cmd += extra
             errf = open(os.path.join(out_dir, '%s%04d.stderr.txt' % (prefix, k)), 'w') if tool else subprocess.STDOUT
             p = subprocess.Popen(cmd, stdout=subprocess.PIPE, stderr=errf, text=True, env=env)
@@ -280,6 +286,7 @@ def run_check(prop, tier, seed):
     scale = float(os.environ.get('VERIF_BUDGET_SCALE', '1'))
     for k in list(b):
         if k.endswith('_s'): b[k] = max(5, b[k] * scale)
+    if tier == 'quick' and prop in QUICK_RUNS: b['native_runs'] = QUICK_RUNS[prop]
     out_dir = os.path.join(BUILD, 'run', prop)
     shutil.rmtree(out_dir, ignore_errors=True)
     os.makedirs(out_dir, exist_ok=True)
@@ -314,16 +321,16 @@ def run_check(prop, tier, seed):
     jobs = []
     if want('native'):
         fams = FAMILIES_THOROUGH if tier == 'thorough' else FAMILIES
-        jobs.append(('native', lambda: run_native(bins['native'], prop, tier, seed, out_dir, b['native_s'], b['native_procs'], b['proc_ms'], families=fams)))
+        jobs.append(('native', lambda: run_native(bins['native'], prop, tier, seed, out_dir, b['native_s'], b['native_procs'], b['proc_ms'], families=fams, total=b.get('native_total'), runs=b.get('native_runs'))))
     if want('native') and tier == 'thorough':
         jobs.append(('sweep', lambda: run_sweep(bins['native'], prop, seed, out_dir, b['native_s'] * 0.5, 4)))
     if use_miri:
         jobs.append(('miri', lambda: sanit.run_miri(prop, seed, out_dir, b['miri_s'], b['miri_procs'], log)))
     if use_asan:
         aenv = dict(os.environ, ASAN_OPTIONS='detect_leaks=0:halt_on_error=1:abort_on_error=0:symbolize=1:detect_stack_use_after_return=1')
-        jobs.append(('asan', lambda: run_native(bins['asan'], prop, tier, seed, out_dir, b['asan_s'], b['asan_procs'], b['proc_ms'], env=aenv, tool='asan', prefix='a')))
+        jobs.append(('asan', lambda: run_native(bins['asan'], prop, tier, seed, out_dir, b['asan_s'], b['asan_procs'], b['proc_ms'], env=aenv, tool='asan', prefix='a', total=b.get('asan_total'), runs=b.get('asan_runs'))))
         if 'asan-nohooks' in bins:
-            jobs.append(('asan-nohooks', lambda: run_native(bins['asan-nohooks'], prop, tier, seed, out_dir, b['asan_s'], b['asan_procs'], b['proc_ms'], families=['off'], env=aenv, tool='asan-nohooks', prefix='b')))
+            jobs.append(('asan-nohooks', lambda: run_native(bins['asan-nohooks'], prop, tier, seed, out_dir, b['asan_s'], b['asan_procs'], b['proc_ms'], families=['off'], env=aenv, tool='asan-nohooks', prefix='b', total=b.get('asan_total'), runs=b.get('asan_runs'))))
     if use_tsan:
         tenv = dict(os.environ, TSAN_OPTIONS='halt_on_error=0:exitcode=0:report_signal_unsafe=0')
         jobs.append(('tsan', lambda: run_native(bins['tsan'], prop, tier, seed, out_dir, b['tsan_s'], b['tsan_procs'], b['proc_ms'], env=tenv, tool='tsan', prefix='t')))
